@@ -106,7 +106,7 @@ def build_r2a(facts, summaries, w):
     ap_start, ap_reset, ap_done, load = D.wire('ap_start'), D.wire('ap_reset'), D.wire('ap_done'), D.wire('load_outs')
     reg_in = D.wire('reg_in', w)
     ic = D.el.find_class('AXI4StreamInterface', AXI)
-    stream = D.el.instantiate(ic, [D.sys, 's', 8], dict(has_tlast=True, has_tkeep=True))
+    stream = D.el.instantiate(ic, [D.sys, 's', 8 * math.ceil(w / 8)], dict(has_tlast=True, has_tkeep=True))
     sent, active = D.wire('sent'), D.wire('active')
     D.make('Reg2Axi', 'dut', ap_start, ap_reset, ap_done, load, reg_in, stream, sent, active, rel=VW)
     D.prepare()
@@ -199,6 +199,9 @@ def run(ctx, sm, facts):
           dict(tdata=[0x00, 0xA5, 0x5A, 0xFF, 0x13]), tier, seed, '%s:Axi2Reg.__init__' % VW)
     cosim(ctx, 'C16.b', 'Reg2Axi', lambda: build_r2a(facts, summaries, 8), lambda: R2A(8), ['ap_start', 'ap_reset', 'ap_done', 'load_outs', 'tready'],
           dict(reg_in=[0x00, 0xA5, 0x5A, 0xFF, 0x13]), tier, seed, '%s:Reg2Axi.__init__' % VW)
+    # a register width that is not a whole number of bytes (KEEP must still cover the byte that holds the top bits)
+    cosim(ctx, 'C16.b', 'Reg2Axi(w=12)', lambda: build_r2a(facts, summaries, 12), lambda: R2A(12), ['ap_start', 'ap_reset', 'ap_done', 'load_outs', 'tready'],
+          dict(reg_in=[0x000, 0xA5A, 0x5A5, 0xFFF, 0x813]), 'quick', seed, '%s:Reg2Axi.__init__' % VW)
     check_interface(ctx, facts)
     ctx.not_decided += ['schedules longer than the bound; other register / stream widths', 'Axi2ClkFSM and VitisKernelFSM control sequencing']
     ctx.assumptions += ['reference adapters transcribed from the property statement (hv/rules/c16.py)', 'ap_done is only driven after a completed transfer (domain of the property)']
